@@ -172,6 +172,35 @@ func libCall(e *Exec, st *State, fr *Frame, callee *ssa.Function, args []*Value,
 		st.Store(LocIndex(b.L[0], BV64(1)), Extract(15, 8, v))
 		k(st, nil)
 		return true
+	case "reflect.FuncOf", "reflect.SliceOf", "reflect.MapOf", "reflect.PtrTo":
+		use()
+		// the element types must be non-nil (FuncOf: every in / out element)
+		for ai, a := range args {
+			switch {
+			case len(a.L) == 1 && a.L[0].Sort == SInt:
+				if !e.mayPanic(st, fr, Eq(a.L[0], IntLit(0)), "reflect-nil-type", nil, nil) {
+					return true
+				}
+			case len(a.L) == 3 && a.L[1].BV != nil && a.L[1].BV.IsInt64() && a.L[1].BV.Int64() <= 4:
+				if sl, ok := a.T.Underlying().(*types.Slice); ok && isNamed(sl.Elem(), "reflect", "Type") {
+					for j := int64(0); j < a.L[1].BV.Int64(); j++ {
+						el := st.Load(LocIndex(a.L[0], BV64(j)), SInt)
+						if !e.mayPanic(st, fr, Eq(el, IntLit(0)), "reflect-nil-type", nil, nil) {
+							return true
+						}
+					}
+				}
+			}
+			_ = ai
+		}
+		var as []*Term
+		for _, a := range args {
+			as = append(as, a.L...)
+		}
+		r := UF(sanitize(name)+"_rt", SInt, as...)
+		st.Assume(Not(Eq(r, IntLit(0))))
+		k(st, []*Value{valOf(sig.Results().At(0).Type(), r)})
+		return true
 	case "reflect.TypeOf":
 		use()
 		k(st, []*Value{valOf(sig.Results().At(0).Type(), rtypeOfVal(args[0].One()))})
